@@ -74,6 +74,11 @@ def gen_layer(rng):
                 ps.append(cc.param(None, dict(k="matchreq", rqpos=1, len=1)))
             elif sub is not None and r < 0.8:
                 ps.append(u8(sub))
+            if sub is not None and rng.random() < 0.3:
+                # the response also mirrors variable bytes of the request (behind the request's constant part) and goes
+                # on with a constant: the constant prefix of the response ends in front of the mirrored variable bytes
+                ps.append(cc.param(None, dict(k="matchreq", rqpos=2, len=rng.choice([1, 2]))))
+                ps.append(u8(rng.choice([0x10, 0x00])))
             for _ in range(rng.choice([0, 1, 1])):
                 ps.append(cc.param(None, dict(k="value", dop=cc.simple(cc.std(cc.BUINT, rng.choice([8, 16]))), dflt=None)))
             cid += 1
